@@ -32,6 +32,7 @@ RE_LIB = {
     "urlunsplit": {"params": ["parts"], "types": {"parts": "Obj"}, "returns": "Str", "ensures": []},
     "urljoin": {"params": ["base", "url"], "types": {"base": "Str", "url": "Str"}, "returns": "Str", "raises": {"ValueError": None}, "ensures": []},
     "unquote": {"params": ["string"], "types": {"string": "Str"}, "returns": "Str", "ensures": []},
+    "unquote_letters": {"params": ["string"], "types": {"string": "Str"}, "returns": "Str", "ensures": []},
     "ensure_protocol": {"params": ["url", "protocol"], "types": {"url": "Str", "protocol": "Str"}, "defaults": {"protocol": "'http'"}, "returns": "Str", "ensures": []},
     # ural.get_hostname.get_hostname: total (verified in contracts/stems.py::HOSTNAME), None or a non-empty hostname
     "get_hostname": {"params": ["url"], "types": {"url": "Obj"}, "returns": "Opt[Str]",
